@@ -200,6 +200,17 @@ fn release_held() {
     }
 }
 
+// RemoveOpts the way a caller may build it: the setter called once, or several times with the
+// last call deciding (req.resets = n: n earlier calls with alternating other values)
+fn remove_opts(req: &Value, fully: bool) -> cacache::RemoveOpts {
+    let n = req.get("resets").and_then(|x| x.as_u64()).unwrap_or(0);
+    let mut o = cacache::RemoveOpts::new();
+    for i in 0..n {
+        o = o.remove_fully(if (n - i) % 2 == 1 { !fully } else { fully });
+    }
+    o.remove_fully(fully)
+}
+
 fn raw_io(e: &std::io::Error) -> Value {
     json!({"variant":"RawIo","io":io_err_val(e)})
 }
@@ -237,7 +248,17 @@ fn algo_of(v: Option<&Value>) -> Option<Algorithm> {
 }
 
 fn opts_of(v: Option<&Value>) -> WriteOpts {
-    let mut o = WriteOpts::new();
+    // {"decoy": {...}}: the same setters called EARLIER with other values - the last call of a
+    // setter decides, so the decoy must leave no trace
+    let o = match v.and_then(|x| x.get("decoy")) {
+        Some(d) => apply_opts(WriteOpts::new(), Some(d)),
+        None => WriteOpts::new(),
+    };
+    apply_opts(o, v)
+}
+
+fn apply_opts(o: WriteOpts, v: Option<&Value>) -> WriteOpts {
+    let mut o = o;
     let v = match v {
         Some(v) if v.is_object() => v,
         _ => return o,
@@ -340,11 +361,11 @@ impl Drv {
             "remove_hash_sync" => lift(cacache::remove_hash_sync(&cache, &sri_of(req, "sri")), |_| Value::Null),
             "clear_sync" => lift(cacache::clear_sync(&cache), |_| Value::Null),
             "remove_fully_sync" => lift(
-                cacache::RemoveOpts::new().remove_fully(true).remove_sync(&cache, s(req, "key")),
+                remove_opts(req, true).remove_sync(&cache, s(req, "key")),
                 |_| Value::Null,
             ),
             "remove_opts_sync" => lift(
-                cacache::RemoveOpts::new().remove_fully(false).remove_sync(&cache, s(req, "key")),
+                remove_opts(req, false).remove_sync(&cache, s(req, "key")),
                 |_| Value::Null,
             ),
             "list_sync" => {
@@ -437,13 +458,13 @@ impl Drv {
             }),
             "remove_fully" => asy!({
                 lift(
-                    block_on(cacache::RemoveOpts::new().remove_fully(true).remove(&cache, s(req, "key"))),
+                    block_on(remove_opts(req, true).remove(&cache, s(req, "key"))),
                     |_| Value::Null,
                 )
             }),
             "remove_opts" => asy!({
                 lift(
-                    block_on(cacache::RemoveOpts::new().remove_fully(false).remove(&cache, s(req, "key"))),
+                    block_on(remove_opts(req, false).remove(&cache, s(req, "key"))),
                     |_| Value::Null,
                 )
             }),
@@ -595,6 +616,62 @@ impl Drv {
                     }
                     None => Err(json!({"variant":"Driver","text":"no such writer"})),
                 }
+            }
+            // a write future polled once and then DROPPED (select!/timeout style cancellation);
+            // the writer stays in use: whatever the in-flight task does must stay consistent
+            // with what the writer later reports
+            "w_write_cancel" => {
+                let h = req["h"].as_u64().unwrap();
+                let data = get_data(&req["data"]);
+                match self.handles.get_mut(&h) {
+                    #[cfg(not(feature = "fl-sync"))]
+                    Some(Handle::Writer(w)) => {
+                        let r: Option<std::io::Result<usize>> = block_on(async {
+                            let fut = w.write(&data);
+                            futures::pin_mut!(fut);
+                            match futures::poll!(fut) {
+                                std::task::Poll::Ready(x) => Some(x),
+                                std::task::Poll::Pending => None,
+                            }
+                        });
+                        match r {
+                            None => Ok(json!({"ready": false})),
+                            Some(Ok(n)) => Ok(json!({"ready": true, "n": n})),
+                            Some(Err(e)) => Err(raw_io(&e)),
+                        }
+                    }
+                    Some(_) => Err(json!({"variant":"Driver","text":"not an async writer"})),
+                    None => Err(json!({"variant":"Driver","text":"no such writer"})),
+                }
+            }
+            // fill the file system holding `dir` for real (a filler file grown until ENOSPC, then
+            // shortened so that `leave` bytes stay free) / free it again
+            "fs_fill" => {
+                use std::io::Write as _;
+                let dir = std::path::PathBuf::from(s(req, "dir"));
+                let leave = req.get("leave").and_then(|x| x.as_u64()).unwrap_or(0);
+                let p = dir.join("filler.bin");
+                let mut f = std::fs::OpenOptions::new().create(true).append(true).open(&p).map_err(|e| raw_io(&e))?;
+                let block = vec![0xA5u8; 64 * 1024];
+                let mut total: u64 = 0;
+                let mut chunk = block.len();
+                loop {
+                    match f.write(&block[..chunk]) {
+                        Ok(0) => break,
+                        Ok(n) => total += n as u64,
+                        Err(_) => {
+                            if chunk <= 512 { break; }
+                            chunk /= 2;
+                        }
+                    }
+                }
+                let _ = f.set_len(total.saturating_sub(leave));
+                Ok(json!({"filled": total.saturating_sub(leave)}))
+            }
+            "fs_free" => {
+                let dir = std::path::PathBuf::from(s(req, "dir"));
+                let _ = std::fs::remove_file(dir.join("filler.bin"));
+                Ok(Value::Null)
             }
             "w_commit" => {
                 let h = req["h"].as_u64().unwrap();
